@@ -230,8 +230,13 @@ def _expand(path, meta):
             raw = src[t["start"]:t["end"]]
             txt = R.strip_attrs_and_docs(raw)
             txt = re.sub(r"\bpub\s*\((crate|super)\)", "pub", txt)
+            if t["kw"] == "struct":
+                # D4: private items/fields become pub (visibility has no run-time meaning; single-file build)
+                txt = re.sub(r"(?m)^(\s*)(?!pub\b)((?:r#)?[a-z_]\w*\s*:)", r"\1pub \2", txt)
+            if not txt.lstrip().startswith("pub"):
+                txt = "pub " + txt.lstrip()
             meta["types"].append(dict(file=rel, item=name, sha256=hashlib.sha256(raw.encode()).hexdigest(),
-                                      drops=["D1: attributes and comments", "D4: pub(crate)/pub(super) -> pub"]))
+                                      drops=["D1: attributes and comments", "D4: pub(crate)/pub(super)/private -> pub"]))
             segs.append(Seg(txt + "\n", "code", dict(rec=dict(file=rel, item=name, line=src.count("\n", 0, t["start"]) + 1), off=0)))
             i += 1
         elif re.match(r"//@(fn|fragment|arm) ", s):
